@@ -263,6 +263,8 @@ class Session:
             self.defs(self.core)
             extra = (self.core,)     # the CLI may call small library functions (Config builders) that no contract covers
         m = machine.Machine(module, self.adts, contracts, ctx, repo=REPO, overrides=overrides, defindex=self.defs(module), extra_modules=extra, **kw)
+        if self.prop == 'C17':
+            m.ambient_label = 'C17:state-outside-the-call'
         return m
 
     def absorb(self, m):
